@@ -56,6 +56,8 @@ type clientAPI interface {
 	Call(ctx context.Context, xid int, verdict func(id int, isNil bool) bool, nilMatch bool, onReq func([]byte)) (id int, isNil bool, err error)
 	IDOf(p any) int
 	Prepare(ctx context.Context, xid int, verdict func(id int, isNil bool) bool, nilMatch bool, onReq func([]byte)) func() (int, bool, error)
+	// Fire: a one-shot transmission that expects no answer through the client (nclient4.Release); ok=false: no such call in this API
+	Fire(xid int) (dest *net.UDPAddr, call func() error, ok bool)
 	Close() error
 	Classify(err error) string
 	Datagram(id, xid int, kind string) []byte
@@ -104,6 +106,7 @@ type Sim struct {
 	goFlag      atomic.Bool
 	ready       sync.WaitGroup
 	ncalls      []int // calls made so far per caller
+	firing      map[string]bool // roles whose current call is a one-shot transmission
 }
 
 var gateEvents = map[string]bool{"SendPreLock": true, "SendPreTx": true, "Wake": true, "CancelPre": true,
@@ -235,6 +238,10 @@ func (s *Sim) normalize(e rawEvent) {
 	case "SendRefused":
 		add("SendLock", "c", c, "outcome", "refused", "ent", 0)
 	case "Tx":
+		if s.firing[e.role] {
+			add("Fire", "c", c, "ok", true, "destok", e.args[1].(bool))
+			break
+		}
 		b := e.args[0].([]byte)
 		same := true
 		if f, ok := s.firstTx[e.role]; ok {
@@ -247,6 +254,10 @@ func (s *Sim) normalize(e rawEvent) {
 		}
 		add("Transmit", "c", c, "ok", true, "destok", e.args[1].(bool), "same", same)
 	case "TxErr":
+		if s.firing[e.role] {
+			add("Fire", "c", c, "ok", false, "destok", true)
+			break
+		}
 		add("Transmit", "c", c, "ok", false, "destok", true, "same", true)
 	case "Wake":
 		reason := e.args[0].(string)
@@ -273,6 +284,10 @@ func (s *Sim) normalize(e rawEvent) {
 		s.removed[e.role] = 0
 	case "Return":
 		s.retd[c-1] = true
+		s.firing[e.role] = false
+		s.conn.mu.Lock()
+		delete(s.conn.destFor, e.role)
+		s.conn.mu.Unlock()
 		add("Return", "c", c, "res", e.args[0], "d", e.args[1])
 	case "Rx":
 		ee := e
@@ -413,6 +428,48 @@ func (s *Sim) start(c int) {
 		s.record(role, "Return", res, id)
 	}()
 	s.wait(role)
+}
+
+// fire: caller c gives a lease back (nclient4.Release): one datagram to the lease's server, nothing to wait for
+func (s *Sim) fire(c int) bool {
+	role := "c" + strconv.Itoa(c)
+	dest, call, ok := s.api.Fire(s.cfg.Xid[c-1])
+	if !ok {
+		return false
+	}
+	if s.started[c-1] {
+		s.emit("Again", "c", c)
+		s.retd[c-1] = false
+		s.ctxDone[c-1] = false
+		s.mu.Lock()
+		delete(s.parked, role)
+		s.mu.Unlock()
+	}
+	s.started[c-1] = true
+	s.ncalls[c-1]++
+	s.firing[role] = true
+	s.conn.mu.Lock()
+	s.conn.destFor[role] = dest
+	s.conn.mu.Unlock()
+	go func() {
+		s.mu.Lock()
+		s.roles[goid()] = role
+		s.mu.Unlock()
+		defer func() {
+			if r := recover(); r != nil {
+				s.record(role, "Panic", r)
+				s.record(role, "Return", "panic", 0)
+			}
+		}()
+		err := call()
+		res := "fired"
+		if err != nil {
+			res = "writeerr" // the write is all a Release does: its error is the connection's
+		}
+		s.record(role, "Return", res, 0)
+	}()
+	s.wait(role)
+	return true
 }
 
 func (s *Sim) inject(xid int, kind string) {
@@ -570,6 +627,7 @@ type fakeConn struct {
 	dest   *net.UDPAddr
 	down   bool            // the link is down: every write fails
 	failNext map[string]bool // per role: the next write fails (schedules chosen by TLC)
+	destFor  map[string]*net.UDPAddr // per role: where this role's current call must send (default: dest)
 }
 
 // writeErr is what a failed write returns; kind 1 and 2 are the "transient" errors of package net
@@ -589,7 +647,7 @@ func sameUDPAddr(a net.Addr, want *net.UDPAddr) bool {
 var errClosed = errors.New("use of closed network connection")
 
 func newFakeConn(s *Sim) *fakeConn {
-	return &fakeConn{s: s, wake: make(chan struct{}, 1), failNext: map[string]bool{}}
+	return &fakeConn{s: s, wake: make(chan struct{}, 1), failNext: map[string]bool{}, destFor: map[string]*net.UDPAddr{}}
 }
 
 func (f *fakeConn) push(d *dgram) {
@@ -639,12 +697,16 @@ func (f *fakeConn) WriteTo(b []byte, addr net.Addr) (int, error) {
 	f.mu.Lock()
 	fail := f.down || f.failNext[role]
 	delete(f.failNext, role)
+	want := f.dest
+	if d, ok := f.destFor[role]; ok {
+		want = d
+	}
 	f.mu.Unlock()
 	if fail {
 		f.s.record(role, "TxErr")
 		return 0, &writeErr{f.s.cfg.ErrKind}
 	}
-	f.s.record(role, "Tx", append([]byte(nil), b...), sameUDPAddr(addr, f.dest))
+	f.s.record(role, "Tx", append([]byte(nil), b...), sameUDPAddr(addr, want))
 	return len(b), nil
 }
 
